@@ -21,6 +21,10 @@ vars == <<s, last, ret, ret2, steps, allLegal, over, post>>
 
 MCCfg(n, q) == [num_nodes |-> n, max_capacity |-> q, max_demand |-> q, reward_fn |-> "dense",
                 generator |-> "mc", lattice |-> FALSE]
+\* zero-demand customers allowed (the demand box of the observation spec is [0, max_capacity])
+MCCfgZ(n, q) == [MCCfg(n, q) EXCEPT !.generator = "lattice0"]
+MCCfgZ3q2 == MCCfgZ(3, 2)
+MinDem == IF Cfg.generator = "lattice0" THEN 0 ELSE 1
 MCCfg3q1 == MCCfg(3, 1)
 MCCfg3q2 == MCCfg(3, 2)
 MCCfg3q3 == MCCfg(3, 3)
@@ -36,7 +40,7 @@ DFamily == { SymD(f) : f \in [Pairs -> DVals] } \cup { GenericD }
 Instances ==
   { [demands |-> <<0>> \o d, D |-> dm, position |-> Depot, capacity |-> Q, num_total_visits |-> 1,
      visited_mask |-> [j \in 1..(N + 1) |-> j = 1], trajectory |-> [j \in 1..TrajLen |-> Depot]] :
-      d \in [1..N -> 1..Min2(MaxD, Q)], dm \in DFamily }
+      d \in [1..N -> MinDem..Min2(MaxD, Q)], dm \in DFamily }
 
 Init ==
   /\ s \in Instances
